@@ -33,14 +33,37 @@ func withRand(rd io.Reader, f func()) {
 	f()
 }
 
+// attributes filling a datagram to 4000..4096 bytes
+func bigAttrs(r *Rng) []aop {
+	var as []aop
+	for k := 0; k < 15; k++ {
+		as = append(as, aop{0, r.Pick(1, 2, 255), r.Bytes(253)})
+	}
+	total := 20 + 15*255
+	want := 4096 - r.Pick(0, 0, 1, 2, 3, 16, 64, 96)
+	for total+2 <= want {
+		n := want - total - 2
+		if n > 253 {
+			n = 253
+		}
+		as = append(as, aop{0, 5, r.Bytes(n)})
+		total += n + 2
+	}
+	return as
+}
+
 func init() {
 	props["C03"] = func(c *Ctx) {
-		c.Res.Rule = "Encode for every code 0..255 and {-1,256,1000} x secrets (incl. empty) x attribute lists; IsAuthenticResponse/IsAuthenticRequest on authentic datagrams and on every single-bit flip of the 20 header bytes, sampled body flips, every truncation length, extensions, wrong secret, wrong request, empty secret; New with crypto/rand.Reader replaced by a recording reader (exactly 17 bytes drawn, layout identifier|authenticator); Response field copy. non-trivial = hashed code path or a corrupted authentic datagram"
+		c.Res.Rule = "Encode for every code 0..255, {-1,256,1000} and every defined code +-256, +65536, +2^32 x secrets (incl. empty, 64..66 bytes and up to 465) x attribute lists; IsAuthenticResponse/IsAuthenticRequest on authentic datagrams and on every single-bit flip of the 20 header bytes, sampled body flips, every truncation length, extensions, wrong secret (extended, a proper prefix, last byte changed), datagrams of 4000..4096 bytes with secrets beyond 64 bytes, wrong request, empty secret; New with crypto/rand.Reader replaced by a recording reader (exactly 17 bytes drawn, layout identifier|authenticator); Response field copy. non-trivial = hashed code path or a corrupted authentic datagram"
 		r := c.Rng.Fork()
 		// Encode: every code
 		codes := []int{-1, 256, 1000}
 		for k := 0; k < 256; k++ {
 			codes = append(codes, k)
+		}
+		// codes outside 0..255 whose low byte is a defined code: unknown all the same
+		for _, d := range []int{1, 2, 3, 4, 5, 11, 12, 13, 40, 41, 42, 43, 44, 45} {
+			codes = append(codes, d+256, d-256, d+65536, d+(1<<32))
 		}
 		rounds := c.N(2, 12)
 		for round := 0; round < rounds; round++ {
@@ -52,6 +75,9 @@ func init() {
 				}
 				if r.Intn(5) == 0 {
 					m.sec = nil
+				}
+				if r.Intn(6) == 0 {
+					m.sec = r.Bytes(64 + r.Intn(3) + r.Intn(2)*r.Intn(400))
 				}
 				t, _ := implBytesRes(func() ([]byte, error) { return m.packet().Encode() })
 				tag := "encode-unknown"
@@ -73,11 +99,18 @@ func init() {
 		n := c.N(60, 1500)
 		for i := 0; i < n; i++ {
 			sec := r.Bytes(1 + r.Intn(12))
+			if i%5 == 4 {
+				sec = r.Bytes(64 + r.Intn(3) + r.Intn(2)*r.Intn(400))
+			}
 			reqp := genPacket(r)
 			reqp.code = r.Pick(1, 4, 12, 40, 43)
 			reqp.sec = sec
-			if len(reqp.attrs) > 6 {
+			huge := i%15 == 14 // datagrams of 4000..4096 bytes, with the long secrets too
+			if len(reqp.attrs) > 6 && !huge {
 				reqp.attrs = reqp.attrs[:4]
+			}
+			if huge {
+				reqp.attrs = bigAttrs(r)
 			}
 			q, err := reqp.packet().Encode()
 			if err != nil {
@@ -91,6 +124,9 @@ func init() {
 			}
 			addReq(q, sec, fmt.Sprintf("isreq-authentic-%d", reqp.code))
 			for bit := 0; bit < 160; bit += 1 + r.Intn(3) {
+				if huge && bit%32 != 0 {
+					continue
+				}
 				b := append([]byte(nil), q...)
 				b[bit/8] ^= 1 << uint(bit%8)
 				addReq(b, sec, "isreq-hdr-flip")
@@ -105,6 +141,9 @@ func init() {
 			addReq(q[:r.Intn(len(q))], sec, "isreq-truncated")
 			addReq(append(append([]byte(nil), q...), r.Bytes(1+r.Intn(4))...), sec, "isreq-extended")
 			for _, code := range []int{0, 2, 3, 5, 11, 13, 41, 44, 255} {
+				if huge && code != 2 {
+					continue
+				}
 				b := append([]byte(nil), q...)
 				b[0] = byte(code)
 				addReq(b, sec, "isreq-other-code")
@@ -126,6 +165,9 @@ func init() {
 			if len(respm.attrs) > 6 {
 				respm.attrs = respm.attrs[:4]
 			}
+			if huge {
+				respm.attrs = bigAttrs(r)
+			}
 			resp := reqParsed.Response(radius.Code(respm.code))
 			for _, a := range respm.attrs {
 				resp.Add(radius.Type(a.k), a.v)
@@ -144,6 +186,9 @@ func init() {
 				c.Fail("spec", "encode;isresp", "isresp-authentic", hx(w)+" "+hx(q), "false", "true", "a reply built with Response+Encode must verify against its request")
 			}
 			for bit := 0; bit < 160; bit++ {
+				if huge && bit%40 != 7 {
+					continue
+				}
 				b := append([]byte(nil), w...)
 				b[bit/8] ^= 1 << uint(bit%8)
 				addResp(b, q, sec, "isresp-hdr-flip")
@@ -154,11 +199,24 @@ func init() {
 				addResp(b, q, sec, "isresp-body-flip")
 			}
 			for l := 0; l < len(w); l += 1 + r.Intn(4) {
-				addResp(w[:l], q, sec, "isresp-truncated")
+				if huge {
+					l += len(w) / 3
+				}
+				if l < len(w) {
+					addResp(w[:l], q, sec, "isresp-truncated")
+				}
 			}
 			addResp(append(append([]byte(nil), w...), r.Bytes(1+r.Intn(5))...), q, sec, "isresp-extended")
 			addResp(w, q, nil, "isresp-empty-secret")
 			addResp(w, q, append([]byte{9}, sec...), "isresp-wrong-secret")
+			if len(sec) > 1 {
+				// a proper prefix of the secret, and the secret with a changed last byte
+				addResp(w, q, sec[:len(sec)-1-r.Intn(len(sec)-1)], "isresp-wrong-secret")
+				s2 := append([]byte(nil), sec...)
+				s2[len(s2)-1] ^= 0x40
+				addResp(w, q, s2, "isresp-wrong-secret")
+				addReq(q, s2, "isreq-wrong-secret")
+			}
 			q2 := append([]byte(nil), q...)
 			q2[4+r.Intn(16)] ^= 0x10
 			addResp(w, q2, sec, "isresp-other-request")
